@@ -88,17 +88,22 @@ func (n *node) tokens() int {
 	return t
 }
 
+// ctorLeaf builds a leaf through the registered config constructors (New…Conf) wherever the config accepts the
+// values, directly otherwise (once:0 is below OnceConfig's min=1).
 func ctorLeaf(ctor string) (core.Schedule, int64) {
 	p := strings.Split(ctor, ":")
 	atoi := func(s string) int64 { v, _ := strconv.ParseInt(s, 10, 64); return v }
 	atof := func(s string) float64 { v, _ := strconv.ParseFloat(s, 64); return v }
 	switch p[0] {
 	case "once":
+		if n := atoi(p[1]); n >= 1 {
+			return schedule.NewOnceConf(schedule.OnceConfig{Times: n}), 0
+		}
 		return schedule.NewOnce(atoi(p[1])), 0
 	case "const":
-		return schedule.NewConst(atof(p[1]), time.Duration(atoi(p[2]))), atoi(p[2])
+		return schedule.NewConstConf(schedule.ConstConfig{Ops: atof(p[1]), Duration: time.Duration(atoi(p[2]))}), atoi(p[2])
 	case "line":
-		return schedule.NewLine(atof(p[1]), atof(p[2]), time.Duration(atoi(p[3]))), atoi(p[3])
+		return schedule.NewLineConf(schedule.LineConfig{From: atof(p[1]), To: atof(p[2]), Duration: time.Duration(atoi(p[3]))}), atoi(p[3])
 	}
 	panic("ctor " + ctor)
 }
@@ -384,9 +389,9 @@ func buildReal(n *node, atomicKids bool) core.Schedule {
 		s, _ := ctorLeaf(n.ctor)
 		return s
 	case "U":
-		return schedule.NewUnlimited(time.Duration(n.dur))
+		return schedule.NewUnlimitedConf(schedule.UnlimitedConfig{Duration: time.Duration(n.dur)})
 	case "I":
-		return schedule.NewInstanceStep(n.is[0], n.is[1], n.is[2], time.Duration(n.is[3]))
+		return schedule.NewInstanceStepConf(schedule.InstanceStepConfig{From: n.is[0], To: n.is[1], Step: n.is[2], StepDuration: time.Duration(n.is[3])})
 	}
 	if strings.HasPrefix(n.ctor, "step:") {
 		p := strings.Split(n.ctor, ":")
@@ -394,7 +399,7 @@ func buildReal(n *node, atomicKids bool) core.Schedule {
 		t, _ := strconv.ParseFloat(p[2], 64)
 		st, _ := strconv.ParseInt(p[3], 10, 64)
 		d, _ := strconv.ParseInt(p[4], 10, 64)
-		return schedule.NewStep(f, t, st, time.Duration(d))
+		return schedule.NewStepConf(schedule.StepConfig{From: f, To: t, Step: st, Duration: time.Duration(d)})
 	}
 	var kids []core.Schedule
 	for _, k := range n.kids {
@@ -404,7 +409,7 @@ func buildReal(n *node, atomicKids bool) core.Schedule {
 		}
 		kids = append(kids, c)
 	}
-	return schedule.NewComposite(kids...)
+	return schedule.NewCompositeConf(schedule.CompositeConf{Nested: kids})
 }
 
 func fmtT(t0 time.Time, tx time.Time) string {
@@ -465,7 +470,13 @@ func runSeq(m map[string]string) (obs string) {
 	return finish()
 }
 
-func run(input string) string {
+// hangs counts cases that did not come back (a lock that is never released, a lost wake-up). After a dozen of them
+// the remaining cases are not run any more: each would cost its full timeout, and the verdict is already clear.
+var hangs atomic.Int64
+
+const caseTimeout = 5 * time.Second // a case takes milliseconds (timed ones 0.6 s)
+
+func runMode(input string) string {
 	m := drv.KV(input)
 	switch m["mode"] {
 	case "conc":
@@ -477,11 +488,34 @@ func run(input string) string {
 	}
 }
 
+func run(input string) string {
+	if hangs.Load() >= 12 {
+		return "HANG"
+	}
+	done := make(chan string, 1)
+	go func() {
+		defer func() {
+			if r := recover(); r != nil {
+				done <- "PANIC " + drv.Clean(fmt.Sprint(r))
+			}
+		}()
+		done <- runMode(input)
+	}()
+	select {
+	case o := <-done:
+		return o
+	case <-time.After(caseTimeout):
+		hangs.Add(1)
+		return "HANG"
+	}
+}
+
 func main() {
 	drv.Main(&drv.Prop{
-		ID:  "C02",
-		Gen: gen,
-		Run: run,
+		ID:      "C02",
+		Gen:     gen,
+		Run:     run,
+		Timeout: 8 * time.Second, // see caseTimeout
 		Class: func(in, obs string) string {
 			m := drv.KV(in)
 			c := m["mode"]
